@@ -176,8 +176,12 @@ func genModifier(r *Rng, sa flows.SessionAssets, env envs.Environment, c *flows.
 		loc, _ := time.LoadLocation(tz)
 		return modCase{"timezone", modifiers.NewTimezone(loc), fmt.Sprintf("timezone %d", it.id("z:"+tz)), "timezone " + tz}
 	case 4:
-		key := Pick(r, []string{"gender", "age", "joined", "nick"})
-		val := Pick(r, []string{"", "male", "Male", "18", "40.5", "abc", "2022-01-01T00:00:00Z", strings.Repeat("é", maxField+2), strings.Repeat("é", maxField), "x"})
+		key := Pick(r, []string{"gender", "age", "joined", "nick", "gender", "age", "joined", "nick", "state", "district", "ward"})
+		val := Pick(r, []string{"Kigali City", "Rwanda > Kigali City > Gasabo", "Rwanda > Kigali City > Gasabo > Gisozi", "Gasabo", "Gisozi", "Rwanda > Eastern Province > Rwamagana", "", "male", "Male", "18", "40.5", "abc", "2022-01-01T00:00:00Z", strings.Repeat("é", maxField+2), strings.Repeat("é", maxField), "x", "37.50", "2018-05-01T10:30:00.000000-05:00"})
+		// the text the field already has (the contact was read from its stored form): nothing changes
+		if fv := c.Fields()[key]; fv != nil && fv.Value != nil && fv.Text != nil && r.Chance(35) {
+			val = fv.Text.Native()
+		}
 		f := sa.Fields().Get(key)
 		return modCase{"field", modifiers.NewField(f, val), "", fmt.Sprintf("field %s=%q", key, truncate(val, 20))}
 	case 5:
@@ -244,8 +248,10 @@ func genModifier(r *Rng, sa flows.SessionAssets, env envs.Environment, c *flows.
 
 func runC03(c *Ctx) {
 	r := c.Rng
-	env := envs.NewBuilder().WithAllowedLanguages("eng", "fra").WithDefaultCountry("US").Build()
-	sa, err := contactAssets(env, "")
+	envUTC := envs.NewBuilder().WithAllowedLanguages("eng", "fra").WithDefaultCountry("US").Build()
+	guayaquil, _ := time.LoadLocation("America/Guayaquil")
+	envLocal := envs.NewBuilder().WithAllowedLanguages("eng", "fra").WithDefaultCountry("US").WithTimezone(guayaquil).Build()
+	sa, err := contactAssets(envUTC, "")
 	if err != nil {
 		c.Fail("monitor", "harness", "assets", "contact assets rejected: "+err.Error(), nil)
 		return
@@ -253,6 +259,10 @@ func runC03(c *Ctx) {
 	// ---- modifier level -------------------------------------------------------------------------
 	n := c.N(6000, 300000)
 	for i := 0; i < n; i++ {
+		env := envUTC
+		if i%3 == 2 {
+			env = envLocal
+		}
 		maxField := Pick(r, []int{4, 10, 640})
 		eng := engine.NewBuilder().WithMaxFieldChars(maxField).Build()
 		cj := genContactJSON(r, r.Chance(60))
@@ -263,7 +273,7 @@ func runC03(c *Ctx) {
 		}
 		it := &internTable{}
 		mc := genModifier(r, sa, env, contact, it, maxField)
-		desc := map[string]any{"contact": json.RawMessage(cj), "modifier": mc.desc, "max_field_chars": maxField}
+		desc := map[string]any{"contact": json.RawMessage(cj), "modifier": mc.desc, "max_field_chars": maxField, "timezone": env.Timezone().String()}
 		mj, _ := json.Marshal(mc.mod)
 		desc["modifier_json"] = json.RawMessage(mj)
 
@@ -387,7 +397,7 @@ func runContactSprintCase(c *Ctx, r *Rng, i int, prop string) {
 	def := map[string]any{"uuid": flowUUID, "name": "Contact", "spec_version": "13.6.0", "language": "eng", "type": "messaging", "revision": 1, "expire_after_minutes": 60, "localization": map[string]any{},
 		"nodes": []map[string]any{
 			{"uuid": n1, "actions": mkActions(), "exits": []map[string]any{{"uuid": e1, "destination_uuid": n2}}},
-			{"uuid": n2, "router": map[string]any{"type": "switch", "wait": map[string]any{"type": "msg"}, "operand": "@input.text", "cases": []any{}, "default_category_uuid": cu,
+			{"uuid": n2, "router": map[string]any{"type": "switch", "wait": map[string]any{"type": "msg", "timeout": map[string]any{"seconds": 600, "category_uuid": cu}}, "operand": "@input.text", "cases": []any{}, "default_category_uuid": cu,
 				"categories": []map[string]any{{"uuid": cu, "name": "All", "exit_uuid": e2}}}, "exits": []map[string]any{{"uuid": e2, "destination_uuid": n3}}},
 			{"uuid": n3, "actions": mkActions(), "exits": []map[string]any{{"uuid": e3, "destination_uuid": n2}}},
 		}}
@@ -463,14 +473,80 @@ func runContactSprintCase(c *Ctx, r *Rng, i int, prop string) {
 			seen = trig.TriggeredOn().UTC().Format(time.RFC3339Nano)
 		}
 		check("start", before, sp, seen)
+		tokyo, _ := time.LoadLocation("Asia/Tokyo")
 		for k := 0; k < 3 && s.Status() == flows.SessionStatusWaiting; k++ {
+			call := "resume"
+			if prop == "C06" && r.Chance(40) {
+				// the host stored the session and reads it back; what it stored as the contact's membership of query-based groups may be
+				// stale or wrong (the statement's "stored membership is already wrong"): the hand-back after the resume must be right
+				sj, err := json.Marshal(s)
+				if err != nil {
+					return
+				}
+				var sm map[string]any
+				json.Unmarshal(sj, &sm)
+				if cm, ok := sm["contact"].(map[string]any); ok && r.Chance(70) {
+					var gs []any
+					has := map[string]bool{}
+					if old, ok := cm["groups"].([]any); ok {
+						for _, g := range old {
+							if r.Chance(70) {
+								gs = append(gs, g)
+								if gm, ok := g.(map[string]any); ok {
+									has[fmt.Sprint(gm["uuid"])] = true
+								}
+							}
+						}
+					}
+					for _, q := range queryGroupUUIDs {
+						if r.Chance(20) && !has[q] {
+							gs = append(gs, map[string]any{"uuid": q, "name": "q"})
+						}
+					}
+					if cm["status"] != "active" {
+						gs = nil
+					}
+					cm["groups"] = gs
+					call += "+stored-membership-edited"
+				}
+				sj, _ = json.Marshal(sm)
+				s2, err := eng.ReadSession(sa, sj, assets.IgnoreMissing)
+				if err != nil {
+					c.Count(prop + "-session-not-read")
+					return
+				}
+				s = s2
+			}
 			before, _ = viewOf(s.Contact())
-			res := resumes.NewMsg(nil, nil, flows.NewMsgIn(flows.MsgUUID(us.next()), "tel:+12065550100", nil, Pick(r, []string{"Bob", "male", "18", "x"}), nil))
+			var renv envs.Environment
+			if prop == "C06" && r.Chance(30) {
+				// the resume brings a refreshed environment: the same query can now say something else (dates are read in its zone)
+				renv = envs.NewBuilder().WithAllowedLanguages("eng", "fra").WithDefaultCountry("US").WithTimezone(tokyo).Build()
+				call += "+env"
+			}
+			var res flows.Resume
+			seenOn := ""
+			kind := 0
+			if prop == "C06" {
+				kind = r.Intn(5)
+			}
+			switch kind {
+			case 3:
+				res = resumes.NewWaitTimeout(renv, nil)
+				call += ":wait_timeout"
+			case 4:
+				res = resumes.NewRunExpiration(renv, nil)
+				call += ":run_expiration"
+			default:
+				res = resumes.NewMsg(renv, nil, flows.NewMsgIn(flows.MsgUUID(us.next()), "tel:+12065550100", nil, Pick(r, []string{"Bob", "male", "18", "x"}), nil))
+				seenOn = res.ResumedOn().UTC().Format(time.RFC3339Nano)
+			}
 			sp, err := s.Resume(res)
 			if err != nil {
+				c.Count(prop + "-resume-rejected")
 				return
 			}
-			check("resume", before, sp, res.ResumedOn().UTC().Format(time.RFC3339Nano))
+			check(call, before, sp, seenOn)
 		}
 	})
 }
